@@ -123,7 +123,7 @@ func (w *world) goValue(g sx.S) interface{} {
 		return sx.Int(l[1])
 	case "str":
 		if execNastyStrings { // C07: response strings with every class of character the JSON writer must escape
-			return "s" + l[1].(string) + execNasty[sx.Int(l[1])%len(execNasty)]
+			return "s" + l[1].(string) + execNasty[(sx.Int(l[1])+execNastySalt)%len(execNasty)]
 		}
 		return "s" + l[1].(string)
 	case "bool":
@@ -611,6 +611,10 @@ func dirsText(dirs []sx.S) string {
 // execNastyStrings makes string leaves carry control characters, quotes, backslashes, non-ASCII
 // and invalid UTF-8 (set by C07 only, which compares no data)
 var execNastyStrings bool
+
+// execNastySalt shifts which of the strings below a string id gets (set per case: the ids are few)
+var execNastySalt = 0
+
 var execNasty = []string{"", "\x01", "\x1f", "\x7f", "\"q\"", "\\", "\n\r\t\b\f", "é日😀", "\u2028\u2029", "\xff\xfe", "\x00", "/"}
 
 // docOffsets, when set, receives for every node appended to order the byte offset of its first token
